@@ -1,7 +1,10 @@
 """C17 — Read-trigger and watchpoint events are placed and valued consistently.
 Lean: Uft/Model/Events.lean (on top of Uft/Model/Mcount.lean), Uft/Lemmas/Events.lean,
 Uft/Props/C17.lean.
-Tie: C (H1): the real libmcount configured through the real UFTRACE_TRIGGER (read=),
+Tie: T (translators/events2lean.py: ARGBUF_SIZE, EVTBUF_HDR, MAX_EVENT, ASYNC_IDX, the argument size
+limit of save_to_argbuf, the event ids and the rows of read_events[] are regenerated into
+lean/Uft/Gen/EventTab.lean from the snapshot's sources on every run) and
+C (H1): the real libmcount configured through the real UFTRACE_TRIGGER (read=),
 UFTRACE_WATCH (cpu, var:NAME), UFTRACE_THRESHOLD, UFTRACE_ARGUMENT / UFTRACE_RETVAL strings,
 driven in-process (harness/h1_c17_driver.c) with a scripted clock and scripted value sources
 (getrusage, /proc/self/statm, sched_getcpu, three watched globals, asynchronous events, up to
@@ -789,10 +792,19 @@ def shape_of(finding_id, report):
     return None
 
 
+def ensure_generated(ctx):
+    """version.h is made by the build (and removed by `make clean`): make it in the snapshot if it is absent"""
+    ctx.snapshot()
+    vh = os.path.join(ctx.src, "version.h")
+    if not os.path.exists(vh):
+        r = C.sh(["make", "-C", ctx.src, "-s", vh])
+        ctx.notes.append("version.h was absent in the tree; generated in the snapshot (rc=%d)" % r.returncode)
+
+
 def translate(ctx):
     """Gen/EventTab.lean from the snapshot; the check's own constants follow it"""
     global ARG_MAX
-    ctx.snapshot()
+    ensure_generated(ctx)
     changed, vals = events2lean.main(ctx.src, ctx.scratch)
     ARG_MAX = vals["ARG_MAX"]
     exp = {"ARGBUF_SIZE": 1024, "EVTBUF_HDR": 16, "sizeof_idx": 2}
@@ -814,6 +826,7 @@ def run(ctx):
         # translated values, so the correspondence run below will show the consequences
         ctx.notes.append("frame slice geometry changed: %s" % odd)
     ok, problems = C.prove(ctx, "C17")
+    t_prove = ctx.elapsed()
     proof_broken = not ok
     if proof_broken:
         ctx.notes.append("proof obligation broken: %s" % problems[:5])
@@ -834,7 +847,7 @@ def run(ctx):
     for c in directed_cases():
         c["class"] = "directed"
         cases.append(c)
-    n_clean, n_rand, n_mt = (70, 110, 30) if quick else (1500, 3000, 600)
+    n_clean, n_rand, n_mt = (60, 90, 24) if quick else (1500, 3000, 600)
     for i in range(n_clean):
         cfg = rand_cfg(rng, clean=True)
         cases.append({"cfg": cfg, "class": "clean", "script": gen_script(
@@ -850,7 +863,9 @@ def run(ctx):
         cases.append({"cfg": cfg, "class": "threads", "script": gen_script(
             rng, cfg, nthreads=rng.choice([2, 3]), max_calls=rng.choice([6, 12]), max_depth=3,
             asyncs=rng.random() < 0.2, kind=rng.choice(["pg", "mix"]))})
+    t_build = ctx.elapsed()
     run_cases(ctx, exe, cases)
+    t_cases = ctx.elapsed()
 
     # ---- which variant of the model does the implementation follow?
     usable = [c for c in cases if not c["unknown_probe"]]
@@ -1038,6 +1053,8 @@ def run(ctx):
                 "kind": "property-violated-on-implementation", "what": what, "note": c.get("note"),
                 "env": to_env(c["cfg"]), "script": c["script"], "stream_fill_00": sa, "stream_fill_55": sb})
 
+    ctx.notes.append("phases (s, cumulative): translate+prove %.1f, harness build %.1f, cases+model %.1f, asan+fill %.1f" % (
+        t_prove, t_build, t_cases, ctx.elapsed()))
     if proof_broken:
         C.violation(ctx, "proof", {"kind": "proof-obligation-broken", "problems": problems,
                                    "searched": "%d H1 cases; monitor failures %d" % (total, monitor_fail)},
@@ -1091,6 +1108,11 @@ def run(ctx):
         "word before each hook and the model takes it as an input (cases where it cannot be read are compared "
         "with the repaired variant only)",
         "argument payload contents are not compared, only sizes",
+        "fresh heap memory is made deterministic with glibc's MALLOC_PERTURB_ and tcache_count=0 (zero-filled, as a "
+        "new process sees it; a second fill pattern is used by the uninitialised-memory monitor)",
+        "the stream-level theorems assume hooks >= 2 ns apart and no pending-event overflow (MAX_EVENT); the spec "
+        "monitor evaluates the same statement on the implementation for the generated histories in that class, all "
+        "other histories are covered by the model correspondence only",
     ]
     return C.finish(ctx)
 
